@@ -25,7 +25,7 @@ func init() { register("C20", func() core.Check { return &c20{} }) }
 
 func (*c20) Level() string { return "exploration" }
 func (*c20) Rule() string {
-	return "case = generated portfolio journal (deposits/withdrawals against non-A/L accounts, trades between portfolio accounts, price moves, liabilities, period ends on days without any directive) x valuation commodity x window/interval/--last x account/commodity filters x universe files x -m mappings; weights oracle = each commodity's weight equals its share of the A/L totals that `knut balance -v V --csv -s . --close=false` reports for that date (2e-6), group rows equal the sum of their members, top level sums to 1, the row tree is the universe's classification; returns oracle = exactly one line per reference-calendar period labelled with the period end, 0.0% for periods with constant prices and only external flows, V_end/V_start-1 (to the printed 0.1%) for periods without flows; non-trivial = weights report with >=2 commodities and >=2 dates, returns report with >=3 periods of which >=1 has no directive on its end date; distinct = hash of journal + argv"
+	return "case = generated portfolio journal (deposits/withdrawals against non-A/L accounts, trades between portfolio accounts, price moves, liabilities, several flows per day, portfolios that start empty, annotated and accrued dividends, period ends on days without any directive) x valuation commodity x window/interval/--last x account/commodity filters x universe files x -m mappings; weights oracle = each commodity's weight equals its share of the A/L totals that `knut balance -v V --csv -s . --close=false` reports for that date (2e-6), group rows equal the sum of their members, top level sums to 1, the row tree is the universe's classification; returns oracle = exactly one line per reference-calendar period labelled with the period end, 0.0% for periods with constant prices and only external flows, V_end/V_start-1 (to the printed 0.1%) for periods without external flows - bookings annotated @performance(targets) count as performance, not as flows, also when @accrue spreads them over months (own expansion: equal parts at the period ends of the accrual window, total a multiple of the part); periods holding an annotation with an empty target list are not judged; non-trivial = weights report with >=2 commodities and >=2 dates, returns report with >=3 periods of which >=1 has no directive on its end date; distinct = hash of journal + argv"
 }
 
 func (k *c20) Setup(c *core.Ctx) (int, error) { return c.N(2000, 40000), nil }
@@ -36,6 +36,7 @@ func (*c20) Finish(c *core.Ctx) {
 
 type c20Journal struct {
 	j     *gen.Journal
+	ref   *gen.Journal // the same journal with its accrued transactions written out (reference side)
 	text  string
 	coms  []string
 	dates []cal.Day
@@ -64,6 +65,7 @@ func c20Gen(r *rand.Rand, constantPrices bool) c20Journal {
 		j.Dirs = append(j.Dirs, gen.Dir{Kind: gen.KPrice, Date: first, Com: cm, Tgt: v, Price: fmt.Sprint(p)})
 	}
 	held := map[string]bool{}
+	var expanded []gen.Dir // written-out form of the accrued transactions
 	// a third of the portfolios are empty for the first one to three journal days (only
 	// opens and prices there): periods in which nothing is held and nothing flows
 	lead := 0
@@ -124,6 +126,29 @@ func c20Gen(r *rand.Rand, constantPrices bool) c20Journal {
 				continue
 			}
 			j.Dirs = append(j.Dirs, gen.Dir{Kind: gen.KTxn, Date: d, Desc: "transfer", Bookings: []gen.Booking{{Credit: a, Debit: b, Qty: fmt.Sprintf("%d", 1+r.Intn(100)), Com: cm}}})
+		case r.Intn(6) == 0 && held[v] && len(al) > 1 && d+45 <= dates[len(dates)-1]:
+			// a dividend with targets that is accrued over some months into another portfolio
+			// account: the parts (own expansion: one per period of the window, dated at the
+			// period end, equal amounts because the total is a multiple) keep the annotation
+			s0 := d + cal.Day(r.Intn(10))
+			e0 := s0 + cal.Day(30+r.Intn(70))
+			if e0 > dates[len(dates)-1] {
+				e0 = dates[len(dates)-1]
+			}
+			parts := cal.Partition(s0, e0, cal.Monthly, 0)
+			q := 1 + r.Intn(40)
+			tgt := []string{coms[r.Intn(len(coms))]}
+			acr := al[1]
+			j.Dirs = append(j.Dirs, gen.Dir{Kind: gen.KTxn, Date: d, Desc: "accrued dividend", HasPerf: true, Perf: tgt,
+				Accrual:  &gen.Accrual{Interval: "monthly", Start: s0, End: e0, Account: acr},
+				Bookings: []gen.Booking{{Credit: "Income:Salary", Debit: al[0], Qty: fmt.Sprint(q * len(parts)), Com: v}}})
+			expanded = append(expanded, gen.Dir{Kind: gen.KTxn, Date: d, Desc: "accrued dividend",
+				Bookings: []gen.Booking{{Credit: acr, Debit: al[0], Qty: fmt.Sprint(q * len(parts)), Com: v}}})
+			for _, per := range parts {
+				expanded = append(expanded, gen.Dir{Kind: gen.KTxn, Date: per.End, Desc: "accrued dividend", HasPerf: true, Perf: tgt,
+					Bookings: []gen.Booking{{Credit: "Income:Salary", Debit: acr, Qty: fmt.Sprint(q), Com: v}}})
+			}
+			held[v] = true
 		case r.Intn(5) == 0 && held[v]:
 			// a fee or a dividend with a @performance annotation: the return of its own
 			// period is not judged, but it must not leak into later periods
@@ -157,7 +182,14 @@ func c20Gen(r *rand.Rand, constantPrices bool) c20Journal {
 	if r.Intn(2) == 0 {
 		j.Shuffle(r)
 	}
-	return c20Journal{j: j, text: j.Text(), coms: coms, dates: dates, v: v}
+	rj := &gen.Journal{}
+	for _, d := range j.Dirs {
+		if d.Accrual == nil {
+			rj.Dirs = append(rj.Dirs, d)
+		}
+	}
+	rj.Dirs = append(rj.Dirs, expanded...)
+	return c20Journal{j: j, ref: rj, text: j.Text(), coms: coms, dates: dates, v: v}
 }
 
 func (k *c20) RunCase(c *core.Ctx, i int) {
@@ -576,7 +608,7 @@ func (k *c20) returns(c *core.Ctx, i int, dir string, w c20Journal, r *rand.Rand
 		fail("returns-failed", "portfolio returns fails on an accepted journal: "+fmtErr(res))
 		return
 	}
-	start, end, ok := ref.Window(w.j, f.From, f.To)
+	start, end, ok := ref.Window(w.ref, f.From, f.To)
 	if !ok || start > end {
 		c.NotJudged(1)
 		return
@@ -616,8 +648,8 @@ func (k *c20) returns(c *core.Ctx, i int, dir string, w c20Journal, r *rand.Rand
 		return
 	}
 	// reference values
-	posts, _ := ref.Postings(w.j)
-	pb := ref.NewPriceBook(w.j, w.v)
+	posts, _ := ref.Postings(w.ref)
+	pb := ref.NewPriceBook(w.ref, w.v)
 	value := func(day cal.Day) (float64, bool) {
 		// Σ over A/L postings up to day of q × P(day)
 		q := map[string]*big.Rat{}
@@ -643,9 +675,15 @@ func (k *c20) returns(c *core.Ctx, i int, dir string, w c20Journal, r *rand.Rand
 		fv, _ := total.Float64()
 		return fv, true
 	}
+	internal := map[int]bool{}
+	for di, d := range w.ref.Dirs {
+		if d.Kind == gen.KTxn && d.HasPerf && len(d.Perf) > 0 {
+			internal[di] = true
+		}
+	}
 	noDirectiveEnds := 0
 	jdays := map[cal.Day]bool{}
-	for _, d := range ref.JournalDays(w.j) {
+	for _, d := range ref.JournalDays(w.ref) {
 		jdays[d] = true
 	}
 	for pi, p := range periods {
@@ -658,23 +696,29 @@ func (k *c20) returns(c *core.Ctx, i int, dir string, w c20Journal, r *rand.Rand
 			noDirectiveEnds++
 		}
 		// classify the period from the abstract model
-		flows, priceMove := false, false
+		flows, priceMove, internalEffect := false, false, false
 		for _, po := range posts {
 			if po.Date < p.Start || po.Date > p.End {
 				continue
 			}
 			if ref.IsAL(po.Account) && !ref.IsAL(po.Other) {
-				flows = true
+				if internal[po.Txn] {
+					internalEffect = true
+				} else {
+					flows = true
+				}
 			}
 		}
-		for _, d := range w.j.Dirs {
+		for _, d := range w.ref.Dirs {
 			if d.Kind == gen.KPrice && d.Date >= p.Start && d.Date <= p.End && d.Date > w.dates[0] && d.Com != "ZZZ" {
 				priceMove = true
 			}
 		}
+		// an annotation with targets makes the booking a performance effect of those targets, not
+		// an external flow; what an empty target list means for the total is not pinned
 		annotated := false
-		for _, d := range w.j.Dirs {
-			if d.Kind == gen.KTxn && d.HasPerf && d.Date >= p.Start && d.Date <= p.End {
+		for _, d := range w.ref.Dirs {
+			if d.Kind == gen.KTxn && d.HasPerf && len(d.Perf) == 0 && d.Date >= p.Start && d.Date <= p.End {
 				annotated = true
 			}
 		}
@@ -704,7 +748,10 @@ func (k *c20) returns(c *core.Ctx, i int, dir string, w c20Journal, r *rand.Rand
 				return
 			}
 			c.Count("returns_no_flow_periods_checked", 1)
-		case flows && !priceMove:
+			if internalEffect {
+				c.Count("returns_periods_with_annotated_effects_checked", 1)
+			}
+		case flows && !priceMove && !internalEffect:
 			// external flows only, prices unchanged
 			if math.Abs(vStart) < 1e-9 && vEnd < 0 {
 				continue // degenerate: the portfolio goes negative from nothing
